@@ -442,10 +442,12 @@ def findSub (s sub : List Char) : Option Nat :=
   go (s.length + 1) s 0
 
 def seqCount (xs : List PV) (x : PV) : Except PyExc PV :=
-  (xs.foldlM (fun (acc : Nat) y => match pyEq y x with
+  let step (acc : Nat) (y : PV) : Except PyExc Nat :=
+    match pyEq y x with
     | some true => .ok (acc + 1)
     | some false => .ok acc
-    | none => .error unsupported) 0).map (fun n => PV.int n)
+    | none => .error unsupported
+  (xs.foldlM step 0).map (fun n => PV.int n)
 
 def seqIndex (xs : List PV) (x : PV) : Except PyExc PV :=
   let rec go : List PV → Nat → Except PyExc PV
